@@ -421,7 +421,7 @@ CHECK = {
     "manifest": {
         "engine": "MATRIX + ENUM",
         "technique": "bounded-exhaustive enumeration of test-case shapes executed through the real binaries against all four peers; bounded-exhaustive enumeration of ill-formed suites for the no-crash half",
-        "text": "(a) every test-case shape of a bounded grammar (5 stream types, 1-3 requests, 0-3 responses, payload bytes incl. empty/binary, 6 error codes x 4 message forms x 0-2 details, none/single/repeated/mixed-case/binary request headers, response headers and trailers, full-duplex) is run by the real runner in client mode (reference client vs reference server and gRPC server) and server mode (reference server vs reference client and gRPC client) under HTTP/1.1+HTTP/2 x 3 protocols x 2 codecs x identity+gzip (thorough: + HTTP/3, TLS, all six compressions): zero failures. (b) every parseable ill-formed suite shape of a second grammar goes through parseTestSuites/newTestCaseLibrary: an error or a library, never a panic.",
+        "text": "(a) every test-case shape of a bounded grammar (5 stream types, 1-3 requests, 0-3 responses, payload bytes incl. empty/binary, 6 error codes x 4 message forms x 0-2 details, none/single/repeated/mixed-case/binary request headers, response headers and trailers, full-duplex) is run by the real runner in client mode (reference client vs reference server and gRPC server) and server mode (reference server vs reference client and gRPC client) under HTTP/1.1+HTTP/2 x 3 protocols x 2 codecs x identity+gzip (thorough: + HTTP/3, TLS, all six compressions): zero failures. (b) every parseable ill-formed suite shape of a second grammar goes through parseTestSuites/newTestCaseLibrary: an error or a library, never a panic. Added after the seeding rounds: suites that differ only in suite-level relevant* lists (0, 1, 2 entries, reversed, on every axis pair and on all four); payload sizes 0..203000 around powers of two through POST and Connect GET for requests, responses and error responses that echo a large request; empty-message error details; header names that resemble the runner's own (x-expect*, x-test-case-name-*); capitalised -Bin names; an in-process unit (run() with no commands) for wire-check feedback.",
         "note": "Bounded grammar instead of random generation; no timing directives, so no verdict depends on time.",
         "design_ref": "DESIGN.md §4 C02, §5",
     },
